@@ -291,6 +291,9 @@ CALLS = [
     ("fields mutation", lambda: (Sid(_MULTI).fields.update({"p": "X"}), _desc(Sid(_MULTI)))[1]),
     ("find in list", lambda: sorted(FindInList(["h/a/x", "h/a/y", "h/s/q1"]).find("h/a/*", as_sid=False))),
     ("match", lambda: Sid("h/a/x").match("h/*/x")),
+    ("path(star f, local)", lambda: str(Sid(_MULTI).path("local"))),
+    ("path(star g uri, local)", lambda: str(Sid("a__g:" + _MULTI).path("local"))),
+    ("get_with removes a key", lambda: (str(Sid("h/a/x/v1/m").get_with(ext=None)), _desc(Sid("h/a/x/v1/m")))),
 ]
 NCALLS = len(CALLS)
 
